@@ -1527,6 +1527,31 @@ def switch_bbox_epsg_axis_order""", 'C01.a'),
         return self._get_level(level).load_tiles(tiles, with_metadata=with_metadata, dimensions=dimensions)""", 'C05.d', 'revert of fix D31'),
     M('M-C05d-group-by-column', 'mapproxy/cache/geopackage.py', """            level_tiles.setdefault(tile.coord[2], []).append(tile)""",
       """            level_tiles.setdefault(tile.coord[0], []).append(tile)""", 'C05.d', 'tiles grouped by column instead of level'),
+    M('M-C10l-revert-D32', 'mapproxy/image/mask.py', """    if result.mode == 'RGBA' and hasattr(Image, 'alpha_composite'):
+        # paste with the image as its own mask applies the alpha of
+        # semi-transparent pixels twice and mixes them with the background color
+        result = Image.alpha_composite(result, img)
+    else:
+        result.paste(img, (0, 0), img)
+""", """    result.paste(img, (0, 0), img)
+""", 'C10.l', 'revert of fix D32'),
+    M('M-C14b-revert-D33', 'mapproxy/service/wms.py', """        if self.this:
+            # only the sources of the group itself are rendered (see map_layers_for_query)
+            return self.this.is_opaque(query)
+        return any(x.is_opaque(query) for x in self.layers)""", """        return any(x.is_opaque(query) for x in self.layers)""", 'C14.b', 'revert of fix D33'),
+    M('M-C14b-group-asks-children-too', 'mapproxy/service/wms.py', """        if self.this:
+            # only the sources of the group itself are rendered (see map_layers_for_query)
+            return self.this.is_opaque(query)
+        return any(x.is_opaque(query) for x in self.layers)""", """        if self.this and self.this.is_opaque(query):
+            return True
+        return any(x.is_opaque(query) for x in self.layers)""", 'C14.b', 'own sources or children'),
+    E('E-C14b-group-else-branch', 'mapproxy/service/wms.py', """        if self.this:
+            # only the sources of the group itself are rendered (see map_layers_for_query)
+            return self.this.is_opaque(query)
+        return any(x.is_opaque(query) for x in self.layers)""", """        if not self.this:
+            return any(x.is_opaque(query) for x in self.layers)
+        else:
+            return self.this.is_opaque(query)""", 'branches swapped'),
     E('E-C15h-swapped-compare', 'mapproxy/util/async_.py', """        if len(args) == 1:
             return self._single_call(func, args[0], use_result_objects)""", """        if 1 == len(args):
             return self._single_call(func, args[0], use_result_objects)""", 'operands swapped'),
